@@ -1,7 +1,10 @@
 // Copyright 2014 The Prometheus Authors
 // Copyright 2019 TiKV Project Authors. Licensed under Apache-2.0.
 
+#[cfg(not(prometheus_verif_map))]
 use std::collections::HashMap;
+#[cfg(prometheus_verif_map)]
+use crate::verif_map::HashMap;
 use std::hash::{BuildHasher, Hasher};
 use std::sync::Arc;
 
